@@ -53,29 +53,38 @@ Proof.
   rewrite rev_length in H. cbn [length] in *. lia.
 Qed.
 
-(* a later part as CompressMulti's workers write it *)
-Definition catable_part (m : list N) : Prop :=
+(* a later part as CompressMulti's workers write it: window field of wl bits (1, 4, 7, or 14 in
+   the large-window form) and the 20-bit header of the stored two-byte catable block *)
+Definition wl_ok (wl : N) : Prop := wl = 1%N \/ wl = 4%N \/ wl = 7%N \/ wl = 14%N.
+Definition src_bytes (wl : N) : nat := N.to_nat ((wl + 27) / 8).
+Definition catable_part (wl : N) (m : list N) : Prop :=
   (6 <= length m)%nat
-  /\ (exists lg, rfc_wbits (byte_at m 0 + 256 * byte_at m 1) = Some (lg, 14%N))
-  /\ first_header_len (skipn 14 (bits_of_bytes (takeN 6 m))) = Some 20%N.
+  /\ (exists lg, rfc_wbits (byte_at m 0 + 256 * byte_at m 1) = Some (lg, wl))
+  /\ first_header_len (skipn (N.to_nat wl) (bits_of_bytes (takeN 6 m))) = Some 20%N.
 
-Lemma add_member_len w prev m r : catable_part m ->
+(* one seam: the later part loses its 8 * src_bytes source bits of window field + header and
+   regains at most 20 header bits and 7 padding bits; 2 bits of end marker go as well *)
+Lemma add_member_len wl w prev m r : wl_ok wl -> catable_part wl m ->
   add_member (Some (w, prev)) m = Some r ->
-  exists w' new, r = Some (w', new) /\ (length new + 15 <= length prev + 8 * length m)%nat.
+  exists w' new, r = Some (w', new) /\ (length new + 8 * src_bytes wl <= length prev + 8 * length m + 25)%nat.
 Proof.
-  intros (Hlen & (lg & Hw) & Hh). unfold add_member.
+  intros Hwl (Hlen & (lg & Hw) & Hh). unfold add_member.
   assert (Hl : (lenN m <? LOOKAHEAD)%N = false).
   { apply N.ltb_ge. rewrite lenN_length. unfold LOOKAHEAD. lia. }
   rewrite Hl, Hw.
   destruct (strip_end_marker (bits_of_bytes m)) as [body|] eqn:Es; [|discriminate].
   apply strip_end_marker_len in Es. rewrite bits_of_bytes_len in Es.
   destruct (w <? lg)%N; [discriminate|].
-  change (N.to_nat 14) with 14%nat. rewrite Hh.
-  change (((14 + 20 + 7) / 8)%N) with 5%N. change (LOOKAHEAD <? 5)%N with false. cbv beta zeta match.
-  change (N.to_nat 20) with 20%nat. change (N.to_nat (8 * 5)) with 40%nat.
-  assert (Hhdr : (length (firstn 20 (skipn 14 body)) <= 20)%nat) by apply firstn_le_length.
-  assert (Htl : length (skipn 40 body) = (length body - 40)%nat) by apply skipn_length.
-  remember (firstn 20 (skipn 14 body)) as hdr eqn:Ehdr. remember (skipn 40 body) as tl eqn:Etl.
+  rewrite Hh. clear Hw Hh.
+  assert (Hsrc : ((wl + 20 + 7) / 8 = N.of_nat (src_bytes wl) /\ (src_bytes wl <= 5)%nat /\ (LOOKAHEAD <? (wl + 20 + 7) / 8) = false)%N).
+  { destruct Hwl as [->|[->|[->| ->]]]; vm_compute; repeat split; reflexivity || lia. }
+  destruct Hsrc as (Hs1 & Hs2 & Hs3). rewrite Hs3. cbv beta zeta. rewrite Hs1.
+  replace (N.to_nat (8 * N.of_nat (src_bytes wl))) with (8 * src_bytes wl)%nat by lia.
+  remember (src_bytes wl) as sb eqn:Esb. clear Esb Hs1 Hs3.
+  change (N.to_nat 20) with 20%nat.
+  assert (Hhdr : (length (firstn 20 (skipn (N.to_nat wl) body)) <= 20)%nat) by apply firstn_le_length.
+  assert (Htl : length (skipn (8 * sb) body) = (length body - 8 * sb)%nat) by apply skipn_length.
+  remember (firstn 20 (skipn (N.to_nat wl) body)) as hdr eqn:Ehdr. remember (skipn (8 * sb) body) as tl eqn:Etl.
   clear Ehdr Etl.
   remember (N.to_nat ((8 - N.of_nat (length (prev ++ hdr)) mod 8) mod 8)) as pad eqn:Epad.
   assert (Hp : (pad < 8)%nat).
@@ -88,18 +97,19 @@ Qed.
 Fixpoint sum_length (ms : list (list N)) : nat :=
   match ms with [] => 0%nat | m :: t => (length m + sum_length t)%nat end.
 
-Lemma add_members_len : forall rest w prev res, Forall catable_part rest ->
+Lemma add_members_len wl : wl_ok wl -> forall rest w prev res, Forall (catable_part wl) rest ->
   add_members (Some (w, prev)) rest = Some res ->
   exists w' bits, res = Some (w', bits)
-    /\ (length bits + 15 * length rest <= length prev + 8 * sum_length rest)%nat.
+    /\ (length bits + 8 * src_bytes wl * length rest <= length prev + 8 * sum_length rest + 25 * length rest)%nat.
 Proof.
-  induction rest as [|m t IH]; intros w prev res Hall H.
+  intros Hwl. induction rest as [|m t IH]; intros w prev res Hall H.
   - cbn [add_members] in H. injection H as <-. eexists; eexists; split; [reflexivity|]. cbn. lia.
   - inversion Hall as [|m' t' Hm Ht E1]; subst.
     cbn [add_members] in H. destruct (add_member (Some (w, prev)) m) as [r|] eqn:Em; [|discriminate].
-    destruct (add_member_len w prev m r Hm Em) as (w1 & new & -> & Hn).
+    destruct (add_member_len wl w prev m r Hwl Hm Em) as (w1 & new & -> & Hn).
     destruct (IH w1 new res Ht H) as (w2 & bits & -> & Hb).
-    eexists; eexists; split; [reflexivity|]. cbn [length sum_length]. lia.
+    eexists; eexists; split; [reflexivity|]. cbn [length sum_length].
+    remember (src_bytes wl) as sb. lia.
 Qed.
 
 (* the first part: any stream of at least 5 bytes whose window field parses *)
@@ -115,29 +125,38 @@ Proof.
   intros H. injection H as <-. eexists; eexists; split; [reflexivity|]. exact Es.
 Qed.
 
-Theorem concat_len_catable m0 rest expected :
-  (5 <= length m0)%nat -> Forall catable_part rest ->
+Theorem concat_len_catable wl m0 rest expected : wl_ok wl ->
+  (5 <= length m0)%nat -> Forall (catable_part wl) rest ->
   concat_spec None (m0 :: rest) = Some expected ->
-  (8 * length expected + 15 * length rest <= 8 * sum_length (m0 :: rest) + 7)%nat.
+  (8 * length expected + 8 * src_bytes wl * length rest <= 8 * sum_length (m0 :: rest) + 25 * length rest + 7)%nat.
 Proof.
-  intros H0 Hall. unfold concat_spec. cbn [add_members].
+  intros Hwl H0 Hall. unfold concat_spec. cbn [add_members].
   destruct (add_member None m0) as [r|] eqn:E0; [|discriminate].
   destruct (first_member_len m0 r H0 E0) as (w & bits0 & -> & Hb0).
   destruct (add_members (Some (w, bits0)) rest) as [res|] eqn:Er; [|discriminate].
-  destruct (add_members_len rest w bits0 res Hall Er) as (w' & bits & -> & Hb).
+  destruct (add_members_len wl Hwl rest w bits0 res Hall Er) as (w' & bits & -> & Hb).
   intros H. injection H as <-.
   pose proof (pack_len (bits ++ [true; true])) as Hp. rewrite app_length in Hp. cbn [length] in Hp.
-  cbn [sum_length]. lia.
+  cbn [sum_length]. remember (src_bytes wl) as sb. lia.
 Qed.
 
-(* non-vacuity: a hand-made worker stream (window field for lgwin 22 in the 14-bit form, stored
-   two-byte block "hi", end marker) is a catable part; two and three of them stitch to 13 and 18
-   bytes (16 and 24 before) *)
+(* non-vacuity: hand-made worker streams (window field for lgwin 22 in the 14-bit form / the 4-bit
+   form, stored two-byte block "hi", end marker) are catable parts; two and three of the first
+   stitch to 13 and 18 bytes (16 and 24 before) *)
 Example catable_part_point :
   let m := [17; 22; 2; 0; 2; 104; 105; 3]%N in
-  catable_part m
+  catable_part 14 m
   /\ concat_spec None [m; m] = Some [17; 22; 2; 0; 2; 104; 105; 8; 0; 8; 104; 105; 3]%N
   /\ concat_spec None [m; m; m] = Some [17; 22; 2; 0; 2; 104; 105; 8; 0; 8; 104; 105; 8; 0; 8; 104; 105; 3]%N.
+Proof.
+  cbv zeta. split; [|split; vm_compute; reflexivity].
+  unfold catable_part. split; [cbn; lia|]. split; [exists 22%N|]; vm_compute; reflexivity.
+Qed.
+
+Example catable_part_point_4bit :
+  let m := [139; 0; 128; 104; 105; 3]%N in
+  catable_part 4 m /\ src_bytes 4 = 3%nat
+  /\ concat_spec None [m; m] = Some [139; 0; 128; 104; 105; 8; 0; 8; 104; 105; 3]%N.
 Proof.
   cbv zeta. split; [|split; vm_compute; reflexivity].
   unfold catable_part. split; [cbn; lia|]. split; [exists 22%N|]; vm_compute; reflexivity.
